@@ -128,8 +128,11 @@ def check(ctx: Ctx) -> str:
     ctx.check(bool(st_) and bool(ap2) and not astq.guard_texts(si, st_[0]) and not astq.guard_texts(si, ap2[0]), "set:store", "utils:LRUCache.__setitem__", "unconditional append + store",
               "__setitem__ must append the key and store the value on every path", f"src/jinja2/utils.py:{si.lineno}")
     rm2 = [c for c in astq.calls(si) if isinstance(c.func, ast.Attribute) and c.func.attr in ("_remove", "remove")]
-    ctx.check(bool(rm2) and any("key in self._mapping" in g and pol for g, pol in astq.guard_texts(si, rm2[0])), "set:dedupe", "utils:LRUCache.__setitem__", "remove old position",
-              "overwriting a key must first remove its old queue position (duplicate queue entries otherwise)", f"src/jinja2/utils.py:{si.lineno}")
+    gts2 = astq.guard_texts(si, rm2[0]) if rm2 else []
+    # queue invariant: each key once.  The append is unconditional, so the removal of the old
+    # position must happen whenever the key is present - under no further condition
+    ctx.check(bool(rm2) and [g for g, pol in gts2 if pol] == ["key in self._mapping"] and not [g for g, pol in gts2 if not pol], "set:dedupe", "utils:LRUCache.__setitem__", f"old position removed under {gts2}",
+              f"overwriting a key must remove its old queue position whenever the key is present (guards found: {gts2}); since the append is unconditional any extra condition leaves a duplicate in the recency queue, and a later eviction removes a recently used entry or pops a key that is already gone", f"src/jinja2/utils.py:{si.lineno}", detail={"guards": [f"{'' if p else 'not '}{g}" for g, p in gts2]})
     di = ci.methods["__delitem__"]
     dm = [n for n in ast.walk(di) if isinstance(n, ast.Delete) and "self._mapping[key]" in ast.unparse(n)]
     dq = [c for c in astq.calls(di) if isinstance(c.func, ast.Attribute) and c.func.attr in ("_remove", "remove")]
